@@ -115,6 +115,18 @@ theorem locked_tag_uncollectable :
     v.listed = some .dead ∧ v.clean = some .internalError ∧ v'.listed = some .dead ∧ v'.clean = some .internalError ∧
     v'.left = ["ctx", "st", "ol", "dir", "tag"] := by decide
 
+/-
+FALSE as stated ("removing its stale resources from another process succeeds … afterwards no file owned solely by the dead node
+remains"), also without any crash of the cleaner: when removing the dead node from one of its services fails (other iceoryx2
+version, permissions, internal error), `remove_stale_resources_impl` returns through `cleanup_failure?` and the `Cleaner`, still a
+live local, is dropped: the token is removed, tags / details / directory stay, and no `Node::list` shows the node any more.
+-/
+theorem failed_service_removal_drops_token :
+    let r := runSolo fuel deadNodeTag { mkCleaner 3 with svcFails := true }
+    let v := survey r.1
+    r.2.res = some .internalError ∧ leftover r.1 = ["det", "dir", "tag"] ∧
+    v.listed = some .notListed ∧ v.raw = .doesNotExist ∧ v.clean = some .notDead ∧ v.left = ["det", "dir", "tag"] := by decide
+
 /-! ### the survivor's clean-up in general: any intact token, any number of tags, any reachable state -/
 
 /-- the token of a dead, committed owner is intact and free: the three files exist, the context file is initialised and
@@ -142,13 +154,13 @@ theorem solo_clean_complete (fs : FS) (pid : Nat) (hp : pid ≠ 0) (h : Collecta
   simp only []
   rw [runSolo_add]
   have h2 := solo_phase2 { fs with ol := { fs.ol with lock := some pid } }
-    { mkCleaner pid with pc := 25, hasDet := fs.det.linked && fs.det.perm == .final, raw := some .dead, listed := some .dead } rfl rfl
+    { mkCleaner pid with pc := 25, hasDet := fs.det.linked && fs.det.perm == .final, raw := some .dead, listed := some .dead } rfl rfl rfl
   simp only [] at h2
   rw [h2]
   simp only []
   exact solo_phase3 { fs with ol := { fs.ol with lock := some pid }, tags := 0 }
     { mkCleaner pid with pc := 28, hasDet := fs.det.linked && fs.det.perm == .final, raw := some .dead, listed := some .dead, todo := 0 }
-    rfl rfl rfl h.noLockedTag h.detFinal rfl n
+    rfl rfl rfl h.noLockedTag h.detFinal rfl rfl n
 
 /-- (e) / (d) in general, over ALL interleavings and crash points of the owner and of any number of monitors and cleaners:
 if the owner died after the commit of its creation, the state file still exists (no cleaner has got as far as unlinking it —
